@@ -56,6 +56,10 @@ claimed = {
    text="Frame contracts proved on the real multiplexer, all payloads and all frame sequences: writeFrame emits exactly (7+tag)<<24|len as a little-endian word followed by the given slice unchanged (ghost stream accumulator), under the precondition tag<=2 and len<=262144 that is proved at its call sites; WriteMsg/Write accept payloads of any length and are proved to cut them into consecutive, gap-free parts of at most maxMessageSize bytes each (loop invariant 'sent prefix'), returning len(p) on success; ReadMsg decodes tag and length as the inverse of that encoding (a lemma proved by the solver) and accepts at most maxMessageSize bytes; Read delivers a data frame whole (never truncating: the buffer precondition >= maxMessageSize is proved at bufio.NewReaderSize in ClientRun), yields (0,nil) for an info frame and an error for an error frame or unknown tag, and its panic is proved unreachable. A defect (payloads above the limit were sent as one over-limit frame, from 16 MiB on with a corrupted tag) was found as a failing obligation, replayed and fixed.",
    note="Trusted: io.Reader/io.Writer laws of the callers (bufio.Reader.Read, io.ReadFull, binary.Read/Write): a (0,nil) read is retried, bytes are consumed in order - this is what turns the per-frame contract into 'any re-framing yields the same byte stream'; the text of the error carried by an error frame is not checked (fmt.Errorf is opaque).",
    design="4.17"),
+ "C02": dict(
+   text="Both halves of the delta codec are under contract on the real code, for every file, block layout and token stream. Sender: the sliding read window (mapStruct.ptr) is proved against its representation invariant 'window[k] == file byte pOffset+k' with a ghost model of the file and its read cursor: every request inside the file returns exactly the requested bytes (content and segment postconditions, no bound on sizes), never fails on a static file, and keeps the invariant; simpleSendToken/sendToken/matched: literal chunks are exactly the consecutive file ranges since the last match, each announced by its length, followed by the token -(i+1); lastMatch advances exactly past what was sent and hashed; hashSearch: all index/slice/window requests are in range (loop invariants over offset, k, backlog), a block reference is emitted only after the seeded MD4 of the source range [offset, offset+len_i), truncated to the agreed length, was compared equal to the receiver's and the lengths agree (strong-checksum gate), the final flush is at end of file; SendFiles builds valid search tables; sendFile sends the whole file as consecutive ranges; Checksum2 = MD4(block ++ seed). Receiver: a literal token writes exactly the bytes that follow it, a block reference t writes exactly basis bytes [t*BlockLength, +len) with the remainder length for the last block. Three defects (window rounded past EOF, empty-source panic, both replayed; over-limit frames under C17) were found as failing obligations and fixed.",
+   note="Trusted: the file model (static source, reads return data or an error), strong-checksum equality standing for byte equality (MD4), ghost cursor ownership, io.CopyBuffer for the whole-file hash of sendFile; omitted calls are not detected by call-site assertions; the composition 'tiles + equal blocks => identical file' is argued in DESIGN.md, not machine-checked as one theorem.",
+   design="4.2"),
 }
 not_yet = "check not built yet in this session (work in progress; see DESIGN.md for the planned contract)"
 na = {"C18": "liveness under all schedules / deadlock freedom / data-race freedom are whole-history and concurrency properties; per-function pre/postconditions over sequential SSA cannot express them and govc has no model of goroutines or channels (DESIGN.md §4.18)"}
